@@ -431,6 +431,49 @@ func registerStrings(e *Engine) {
 		return c.E.splitN(c, c.argTerm(0), c.argTerm(1), int(n.Signed()))
 	}
 	e.Intr["strings.Fields"] = func(c *Call) []*State { return c.E.fields(c, c.argTerm(0)) }
+	// strings.Cut(s, sep): split around the first sep
+	e.Intr["strings.Cut"] = func(c *Call) []*State {
+		s0, sep := c.argTerm(0), c.argTerm(1)
+		if s0.Const && sep.Const {
+			b, a, f := strings.Cut(s0.S, sep.S)
+			return c.Return(Tuple{StrC(b), StrC(a), BoolC(f)})
+		}
+		i := StrIndexOf(s0, sep, IntC(0))
+		found := intCmp(">=", i, IntC(0))
+		n := StrLenInt(s0)
+		after := intArith("+", i, StrLenInt(sep))
+		return c.Return(Tuple{Ite(found, StrSubstr(s0, IntC(0), i), s0), Ite(found, StrSubstr(s0, after, intArith("-", n, after)), StrC("")), found})
+	}
+	// strconv.Quote over the ASCII alphabet: exact per character (length concretised, <= 8)
+	e.Intr["strconv.Quote"] = func(c *Call) []*State {
+		s0 := c.argTerm(0)
+		if s0.Const {
+			return c.Return(StrC(strconv.Quote(s0.S)))
+		}
+		n, succ, ok := c.E.concretize(c.St, c.sol2(), StrLen(s0, 64), 0, 8)
+		if !ok {
+			for _, st := range succ {
+				st.Threads[c.Th.ID].top().IP--
+			}
+			return succ
+		}
+		hexd := func(d *Term) *Term { // one hex digit (Int 0..15) as a string
+			return StrFromCode(Ite(intCmp("<", d, IntC(10)), intArith("+", d, IntC(48)), intArith("+", d, IntC(87))))
+		}
+		parts := []*Term{StrC("\"")}
+		for i := 0; i < int(n); i++ {
+			ch, _ := strCharAt(s0, i)
+			code := StrToCode(ch)
+			esc := StrConcat(StrC("\\x"), hexd(intArith("div", code, IntC(16))), hexd(intArith("mod", code, IntC(16))))
+			q := Ite(Or(intCmp("<", code, IntC(0x20)), Eq(code, IntC(0x7f))), esc, ch)
+			for _, m := range [][2]string{{"\a", "\\a"}, {"\b", "\\b"}, {"\f", "\\f"}, {"\n", "\\n"}, {"\r", "\\r"}, {"\t", "\\t"}, {"\v", "\\v"}, {"\\", "\\\\"}, {"\"", "\\\""}} {
+				q = Ite(Eq(ch, StrC(m[0])), StrC(m[1]), q)
+			}
+			parts = append(parts, q)
+		}
+		parts = append(parts, StrC("\""))
+		return c.Return(StrConcat(parts...))
+	}
 	e.Intr["strconv.Itoa"] = func(c *Call) []*State {
 		x := c.argTerm(0)
 		if x.Const {
